@@ -2,6 +2,7 @@ package main
 
 import (
 	"fmt"
+	"go/format"
 	"os"
 	"path/filepath"
 	"runtime"
@@ -122,6 +123,17 @@ func judgeOutside(pat *ref.Pattern, src string, run engineRun) (class, detail st
 	if len(out.Decls) != len(in.Decls) {
 		return "declaration-count-changed", fmt.Sprintf("%d -> %d", len(in.Decls), len(out.Decls)), 0, 0, ""
 	}
+	// strict view (parentheses significant): the gofmt-formatted input against the output.
+	// go/printer strips some redundant parentheses (parameter types, control clauses, ((x)));
+	// formatting the input with the same printer makes both sides comparable exactly.
+	var strictIn, strictOut *ref.File
+	if fsrc, ferr := format.Source([]byte(src)); ferr == nil {
+		if a, _, _, e1 := ref.ParseFile(fsrc, false); e1 == nil {
+			if b, _, _, e2 := ref.ParseFile([]byte(run.Out), false); e2 == nil && len(a.Decls) == len(in.Decls) && len(b.Decls) == len(in.Decls) {
+				strictIn, strictOut = a, b
+			}
+		}
+	}
 	for i, d := range in.Decls {
 		rw := ref.NewRewriter(pat, false)
 		exp := rw.Rewrite(d)
@@ -133,6 +145,9 @@ func judgeOutside(pat *ref.Pattern, src string, run engineRun) (class, detail st
 			cleanDecls++
 			if !ref.Equal(out.Decls[i], ref.StripParens(d)) {
 				return "untouched-declaration-changed", fmt.Sprintf("declaration %d has no instance of the pattern but differs: %s", i, ref.FirstDiff(out.Decls[i], ref.StripParens(d), "")), sitedDecls, cleanDecls, ""
+			}
+			if strictIn != nil && !ref.Equal(strictOut.Decls[i], strictIn.Decls[i]) {
+				return "untouched-declaration-changed/parentheses", fmt.Sprintf("declaration %d has no instance of the pattern but its parenthesisation differs from gofmt(input): %s", i, ref.FirstDiff(strictOut.Decls[i], strictIn.Decls[i], "")), sitedDecls, cleanDecls, ""
 			}
 			continue
 		}
